@@ -31,8 +31,10 @@ TUS = [
     ("asmjit/core/emitter.cpp", ["BaseEmitter"]),
     ("asmjit/core/assembler.cpp", ["BaseAssembler"]),
     ("asmjit/core/builder.cpp", ["BaseBuilder", "NodeList", "Node"]),
-    ("asmjit/core/compiler.cpp", ["BaseCompiler", "Node"]),
-    ("asmjit/core/rapass.cpp", ["RAPass"]),
+    ("asmjit/core/compiler.cpp", ["BaseCompiler", "Node", "VirtReg", "JumpAnnotation", "FuncPass"]),
+    ("asmjit/core/rapass.cpp", ["RAPass", "RAWorkReg", "RABlock", "RAInst", "RAStackSlot"]),
+    ("asmjit/core/builder.cpp", ["Pass"]),
+    ("asmjit/core/rastack.cpp", ["RAStack"]),
     ("asmjit/x86/x86rapass.cpp", ["RAPass"]),
     ("asmjit/arm/a64rapass.cpp", ["RAPass"]),
     ("asmjit/x86/x86assembler.cpp", ["Assembler::on_"]),
@@ -50,7 +52,8 @@ CLASSES = ["CodeHolder", "BaseEmitter", "BaseAssembler", "BaseBuilder", "BaseCom
            "x86::X86RAPass", "a64::ARMRAPass", "RelocEntry", "AddressTableEntry", "Fixup",
            "LabelEntry", "LabelEntry::ExtraData", "CodeHolder::NamedLabelExtraData",
            "BaseNode", "InstNode", "SectionNode", "LabelNode", "AlignNode", "EmbedDataNode", "EmbedLabelNode", "EmbedLabelDeltaNode",
-           "ConstPoolNode", "CommentNode", "SentinelNode", "JumpNode", "FuncNode", "FuncRetNode", "InvokeNode"]
+           "ConstPoolNode", "CommentNode", "SentinelNode", "JumpNode", "FuncNode", "FuncRetNode", "InvokeNode",
+           "VirtReg", "JumpAnnotation", "RAWorkReg", "RABlock", "RAInst", "RAStackSlot", "Pass", "FuncPass", "Arena::ManagedBlock"]
 FUNC_KINDS = ("FunctionDecl", "CXXMethodDecl", "CXXConstructorDecl", "CXXDestructorDecl")
 
 
@@ -202,6 +205,101 @@ def render(e, depth=0):
     return k or "?"
 
 
+def cs(x):
+    return '"' + str(x).replace('"', '""') + '"'
+
+
+def cterm(e, depth=0):
+    """guard condition as a Coq term of type ResetSpec.cexpr (structure of the AST, names only; ASMJIT_LIKELY/UNLIKELY, i.e.
+    __builtin_expect(!!(x), c), and double negation are normalised away)"""
+    e = strip_casts(e)
+    if not isinstance(e, dict) or depth > 8:
+        return 'COther "deep"'
+    k = e.get("kind")
+    inner = e.get("inner") or []
+    if k == "DeclRefExpr":
+        return "CName " + cs(e.get("referencedDecl", {}).get("name", "?"))
+    if k == "CXXThisExpr":
+        return "CThis"
+    if k == "MemberExpr":
+        base = strip_casts(inner[0]) if inner else None
+        if isinstance(base, dict) and base.get("kind") == "CXXThisExpr":
+            return "CName " + cs(e.get("name", "?"))
+        return "CMem (%s) %s" % (cterm(base, depth + 1), cs(e.get("name", "?")))
+    if k == "CallExpr" and inner:
+        cal = strip_casts(inner[0])
+        fn = cal.get("referencedDecl", {}).get("name", "?") if isinstance(cal, dict) else "?"
+        if fn == "__builtin_expect" and len(inner) >= 2:
+            return cterm(inner[1], depth + 1)
+        return "CCall %s [%s]" % (cs(fn), "; ".join(cterm(a, depth + 1) for a in inner[1:]))
+    if k == "CXXMemberCallExpr" and inner:
+        cal = inner[0]
+        obj = (cal.get("inner") or [None])[0]
+        return "CCall %s [%s]" % (cs(cal.get("name", "?")), "; ".join(cterm(a, depth + 1) for a in [obj] + inner[1:]))
+    if k == "UnaryOperator" and inner:
+        op = e.get("opcode", "?")
+        if op == "!":
+            x = strip_casts(inner[0])
+            if isinstance(x, dict) and x.get("kind") == "UnaryOperator" and x.get("opcode") == "!" and x.get("inner"):
+                return cterm(x["inner"][0], depth + 1)
+            return "CNot (%s)" % cterm(inner[0], depth + 1)
+        return "CUn %s (%s)" % (cs(op), cterm(inner[0], depth + 1))
+    if k == "BinaryOperator" and len(inner) > 1:
+        return "CBin %s (%s) (%s)" % (cs(e.get("opcode", "?")), cterm(inner[0], depth + 1), cterm(inner[1], depth + 1))
+    if k == "CXXOperatorCallExpr" and len(inner) >= 2:
+        opn = strip_casts(inner[0]).get("referencedDecl", {}).get("name", "op")
+        return "CCall %s [%s]" % (cs(opn), "; ".join(cterm(a, depth + 1) for a in inner[1:]))
+    if k in ("IntegerLiteral", "CXXBoolLiteralExpr"):
+        return "CLit " + cs(e.get("value"))
+    if k == "CXXNullPtrLiteralExpr":
+        return 'CLit "nullptr"'
+    return "COther " + cs(k or "?")
+
+
+def terminates(st):
+    """does the statement always leave the function by `return` (last statement of a block / a return itself)"""
+    if not isinstance(st, dict):
+        return None
+    if st.get("kind") == "ReturnStmt":
+        return st
+    if st.get("kind") == "CompoundStmt" and st.get("inner"):
+        return terminates(st["inner"][-1])
+    return None
+
+
+def is_error_return(ret):
+    txt = render((ret.get("inner") or [None])[0]) if ret.get("inner") else ""
+    return any(x in txt for x in ("make_error", "report_error", "nullptr", "err", "kInvalidId", "kOutOfMemory"))
+
+
+def exits_of(st):
+    """guard components that hold for everything AFTER statement st in the same block because st may return early"""
+    if not isinstance(st, dict):
+        return ()
+    k = st.get("kind")
+    inner = [c for c in (st.get("inner") or []) if isinstance(c, dict)]
+    if k == "IfStmt" and len(inner) in (2, 3):
+        out = ()
+        r1 = terminates(inner[1])
+        if r1 is not None:
+            out += ("GErrExit",) if is_error_return(r1) else ("GExit (%s) false" % cterm(inner[0]),)
+        else:
+            out += exits_of(inner[1])
+        if len(inner) == 3:
+            r2 = terminates(inner[2])
+            if r2 is not None:
+                out += ("GErrExit",) if is_error_return(r2) else ("GExit (%s) true" % cterm(inner[0]),)
+        return out
+    if k == "DoStmt" and len(inner) >= 2 and render(inner[1]) in ("0", "false"):
+        return exits_of(inner[0])
+    if k == "CompoundStmt":
+        out = ()
+        for c in inner:
+            out += exits_of(c)
+        return out
+    return ()
+
+
 def lambda_calls(n, out):
     if not isinstance(n, dict):
         return
@@ -230,33 +328,41 @@ def walk_body(n, writes, calls, guard=()):
         return
     k = n.get("kind")
     inner = n.get("inner") or []
-    gtxt = " && ".join(guard)
+    gtxt = "[" + "; ".join(guard) + "]"
+    if k == "CompoundStmt":
+        g = guard
+        for c in inner:
+            walk_body(c, writes, calls, g)
+            for x in exits_of(c):
+                if x not in g[len(guard):] or x != "GErrExit":
+                    g = g + (x,)
+        return
     # control flow: what is written below a condition / inside a loop carries the condition as its guard
     if k == "IfStmt" and len(inner) >= 2:
         parts = [c for c in inner if isinstance(c, dict)]
         cond = parts[0]
         # (an init-statement / condition variable would shift the positions; asmjit's reset code has none: fall back to "if")
-        ctext = render(cond) if len(parts) in (2, 3) else "if"
+        ctext = cterm(cond) if len(parts) in (2, 3) else 'COther "if"'
         walk_body(cond, writes, calls, guard)
-        walk_body(parts[1], writes, calls, guard + (ctext,))
+        walk_body(parts[1], writes, calls, guard + ("GCond (%s) true" % ctext,))
         if len(parts) > 2:
-            walk_body(parts[2], writes, calls, guard + ("!" + ctext,))
+            walk_body(parts[2], writes, calls, guard + ("GCond (%s) false" % ctext,))
         return
     if k == "WhileStmt" and len(inner) >= 2:
         walk_body(inner[0], writes, calls, guard)
-        walk_body(inner[-1], writes, calls, guard + ("while " + render(inner[0]),))
+        walk_body(inner[-1], writes, calls, guard + ('GLoop "while" (%s)' % cterm(inner[0]),))
         return
     if k == "DoStmt" and len(inner) >= 2:
         c = render(inner[1])
-        walk_body(inner[0], writes, calls, guard if c in ("0", "false") else guard + ("do-while " + c,))     # do { } while (0): macro idiom
+        walk_body(inner[0], writes, calls, guard if c in ("0", "false") else guard + ('GLoop "do-while" (%s)' % cterm(inner[1]),))     # do { } while (0): macro idiom
         return
     if k in ("ForStmt", "CXXForRangeStmt", "SwitchStmt", "ConditionalOperator"):
         for c in inner:
-            walk_body(c, writes, calls, guard + (k,))
+            walk_body(c, writes, calls, guard + ("GOther " + cs(k),))
         return
     if k == "LambdaExpr":
         for c in inner:
-            walk_body(c, writes, calls, guard + ("lambda",))
+            walk_body(c, writes, calls, guard + ('GOther "lambda"',))
         return
     if k == "BinaryOperator" and n.get("opcode") == "=" and inner:
         fc = field_chain(inner[0])
@@ -322,7 +428,7 @@ def ctor_inits(fn, cls, writes):
     """constructor member initialisers count as assignments of the constructed class"""
     for c in fn.get("inner") or []:
         if c.get("kind") == "CXXCtorInitializer" and "anyInit" in c:
-            writes.append((cls, c["anyInit"].get("name"), "", "assign", "this", ""))
+            writes.append((cls, c["anyInit"].get("name"), "", "assign", "this", "[]"))
 
 
 def demangle_all(names):
@@ -498,8 +604,12 @@ def member_kind(cls, name, ty):
         return "K_HASH"
     if t.startswith("ArenaTree<"):
         return "K_PTRS"          # a single root pointer
-    if t.startswith(("Arena", "ArenaPool")) or t in ("Section", "Arena"):
-        return "K_SKIP"
+    if t.startswith("ArenaPool<"):
+        return "K_PTRS"          # head of the free list
+    if t == "Arena":
+        return "K_ARENA"
+    if t == "Section":
+        return "K_SECTION"
     if t == "NodeList" or re.search(r"\*\s*\[\d+\]$", t):
         return "K_PTRS"
     if t.endswith("*"):
@@ -522,7 +632,33 @@ def coq_str(s):
     return '"' + s.replace('"', '""') + '"'
 
 
+def relevant_functions(funcs):
+    """Only functions that a route of ResetSpec.v can reach are emitted (keeps the generated file small and stable against
+    edits of unrelated functions of the same translation units). The start set is every string literal of ResetSpec.v that names
+    an extracted function, plus the derived names the routes build (<emitter>::on_detach / ::on_reinit, <Class>::<Class>); a name
+    missed here only makes the Coq check fail (hygiene / coverage), never pass."""
+    spec = os.path.join(os.path.dirname(os.path.dirname(os.path.abspath(__file__))), "coq", "theories", "Lifecycle", "ResetSpec.v")
+    lits = set(re.findall(r'"([^"\n]*)"', open(spec).read()))
+    start = set()
+    for l in lits:
+        for cand in (l, l + "::on_detach", l + "::on_reinit", l + "::on_attach", l + "::" + l.split("::")[-1]):
+            if cand in funcs:
+                start.add(cand)
+    seen, todo = set(), list(start)
+    while todo:
+        n = todo.pop()
+        if n in seen:
+            continue
+        seen.add(n)
+        for c in funcs.get(n, {}).get("calls", ()):
+            if c in funcs and c not in seen:
+                todo.append(c)
+    return seen
+
+
 def to_coq(classes, funcs):
+    keep = relevant_functions(funcs)
+    funcs = {k: v for k, v in funcs.items() if k in keep}
     out = []
     out.append("(* GENERATED by tools/c16_fields.py from the clang AST of the asmjit working tree -- do not edit. *)")
     out.append("From Coq Require Import String List.")
@@ -551,7 +687,7 @@ def to_coq(classes, funcs):
             continue
         rows.append("  mk_func %s\n    [%s]\n    [%s]" % (
             coq_str(q),
-            "; ".join("mk_write %s %s %s %s %s %s" % tuple(coq_str(x) for x in w) for w in ws),
+            "; ".join("mk_write %s %s %s %s %s %s" % (tuple(coq_str(x) for x in w[:5]) + (w[5],)) for w in ws),
             "; ".join(coq_str(c) for c in cs)))
     out.append(";\n".join(rows))
     out.append("].")
